@@ -562,9 +562,26 @@ func (w *world) cookie(out *bufio.Writer, kinds map[string]int) {
 			d = uint32(3+w.r.Intn(250))<<24 | uint32(w.r.Intn(1<<24))
 		}
 		seqd := uint32(0)
-		if w.r.Intn(6) == 0 {
+		if w.r.Intn(5) == 0 {
 			kinds["c-seq-off"]++
-			seqd = 1 + uint32(w.r.Intn(1000)) // a different peer sequence number invalidates the cookie
+			seqd = 1 + uint32(w.r.Intn(1000)) // a different peer sequence number: the final ACK of ANOTHER SYN
+			if w.r.Intn(2) == 0 {
+				// ... acknowledging (about) what the stack would answer that other SYN with
+				kinds["c-seq-shifted-consistently"]++
+				d = seqd + []uint32{0, 0, 0, 1, 0xffffffff, 2}[w.r.Intn(6)]
+			}
+		}
+		// the number the stack chooses for a SYN with this sequence number (stateless: ask it)
+		ck := cookie
+		if seqd != 0 {
+			w.inject(netx.TCPSeg{Seq: irs + seqd, Flags: netx.FlagSyn, Wnd: 1000, Opts: syn.Opts})
+			waitParked(lep, 3*time.Second)
+			fr2 := w.frames()
+			if len(fr2) != 1 || fr2[0].Flags != netx.FlagSyn|netx.FlagAck {
+				fmt.Fprintf(out, "# cookie: expected one SYN-ACK for the shifted SYN, got %d\n", len(fr2))
+				return
+			}
+			ck = fr2[0].Seq
 		}
 		t := netx.TCPSeg{Seq: irs + 1 + seqd, Ack: cookie + 1 + d, Flags: netx.FlagAck, Wnd: 4000, Opts: tsOpt(w.r.Bool())}
 		if w.r.Intn(5) == 0 {
@@ -585,7 +602,7 @@ func (w *world) cookie(out *bufio.Writer, kinds map[string]int) {
 			waitParked(lep, time.Second)
 			w.frames() // the RST/FIN of closing it
 		}
-		steps = append(steps, fmt.Sprintf("(%s, %s, %s, %d, %s)", coqSeg(t), coqFrames(got), netx.B(acc), info.Mss, netx.B(info.TsOk)))
+		steps = append(steps, fmt.Sprintf("(%s, %s, %s, %d, %s, %d)", coqSeg(t), coqFrames(got), netx.B(acc), info.Mss, netx.B(info.TsOk), ck))
 		if acc {
 			break // the 4-tuple now belongs to the accepted endpoint, not to the listener
 		}
